@@ -50,7 +50,7 @@ CHECKS = {
   "Static, strong partial. For ALL u64 x i32 (and Option/slice/option-struct) arguments of the 13 API entry points: every integer-determined failure site reachable in any calling context "
   "(overflow, shift amount, division, sign-losing/truncating cast, indexing, unwrap/expect/panic, allocation size) is discharged by the range analysis, is input-independent (once-cell "
   "initialisers), or is a reviewed assumption listed with its reason (float geometry, beyond the 4^8 bound, C11's quantifier); hierarchy/lookup results are serialize() outputs or the world "
-  "cell; fallible entry points return Result<_, String>. Quick uses 5 assumptions that the thorough tier (case splits per decoded resolution) must discharge. Float wrap loops (`while x - c > A { x -= B }`) carry a TERM obligation: the value entering and the reference are bounded so that every round changes x. Thorough also compares arithmetic/shift/index sites per function between the overflow-checked and the release-like extraction. Does NOT decide float-geometry "
+  "cell, and every ID in the vectors compact / uncompact return is a serialize / cell_to_parent / cell_to_children output or an element of a collection of such (no raw input ID travels through); fallible entry points return Result<_, String>. Quick uses 5 assumptions that the thorough tier (case splits per decoded resolution) must discharge. Float wrap loops (`while x - c > A { x -= B }`) carry a TERM obligation: the value entering and the reference are bounded so that every round changes x. Thorough also compares arithmetic/shift/index sites per function between the overflow-checked and the release-like extraction. Does NOT decide float-geometry "
   "panics or termination beyond 'no wrapped-negative loop bound / allocation size'."),
  "C15": ("6/C15", "custom MIR sibling-agreement rules",
   "Static, partial. Decides: forward and inverse select (triangle index, reflect) identically from one polar value (the reflection flag must itself be a function of that polar value), unsquashed face triangle, own-face spherical triangle, correct slots and "
